@@ -431,7 +431,7 @@ func Run(tier string) int {
 	res.Sample(map[string]any{"tree": "F0{S L call!$5(F1{S L pc[staking.delegate(signer)] S';revert}) S';stop}"})
 	return engine.Finish(res, engine.Meta{
 		Property: Prop, Tier: tier, Level: "model_checking", Start: start,
-		Rule: "all call trees of the family: root frame x {no child, child with 3 endings x caught/bubbled x value 0/5} (thorough: + grandchild) x frame endings {STOP, REVERT, INVALID} x one precompile leaf (10 kinds incl. ics20.transfer, read-only by CALL and STATICCALL, or none) at every position; each tree is synthesised as bytecode and delivered twice (as is / with the failing frames switched off) through the real DeliverTx; all persistent stores, logs and supply compared; non-trivial = tree in which at least one frame fails",
+		Rule: "all call trees of the family: root frame x {no child, child with 3 endings x caught/bubbled x value 0/5} (thorough: + grandchild) x frame endings {STOP, REVERT, INVALID} x one precompile leaf (10 kinds incl. ics20.transfer, read-only by CALL and STATICCALL, or none) at every position; each tree is synthesised as bytecode and delivered twice (as is / with the failing frames switched off) through the real DeliverTx; all persistent stores, the ordered log list (index, address, topic) and supply compared; further families: re-entry programs (store, call back in with or without a precompile flush, revert), 584 self-destruct programs, 80 CREATE2 programs against a model, and the warmth differential (gas of BALANCE(callee) after a stopped vs a reverted callee); non-trivial = tree in which at least one frame fails",
 		Assumptions: []string{
 			"gas price 0; the signer's nonce is the only permitted trace of a failed transaction",
 			"the reference execution uses the same bytecode with a storage switch that makes the failing frames revert at entry",
